@@ -25,7 +25,7 @@ RULE = (
     "pair of distinct objects; distinct = distinct (family fingerprint, i, j)"
 )
 ASSUMPTIONS = ["origins are produced by the library's constructors / merge_origins", "content equality itself is C01's subject: frozenset order and separator re-splits are not generated here"]
-MUST_SEE = ["operands_via_pickle_or_deepcopy", "deep_3000_comparisons", "trees_sharing_child_objects", "rejected_replace_then_hash", "permissive_non_node_comparisons", "one_origin_diff_depth_ge2", "equal_pairs_distinct_objects", "triples", "confusable_origin_pairs", "serial_families", "non_node_comparisons", "hash_rechecks", "shared_subtrees", "shared_vs_unshared_families"]
+MUST_SEE = ["source_registry_cleared_between_operands", "operands_via_pickle_or_deepcopy", "deep_3000_comparisons", "trees_sharing_child_objects", "rejected_replace_then_hash", "permissive_non_node_comparisons", "one_origin_diff_depth_ge2", "equal_pairs_distinct_objects", "triples", "confusable_origin_pairs", "serial_families", "non_node_comparisons", "hash_rechecks", "shared_subtrees", "shared_vs_unshared_families"]
 CONFIG = {
     "quick": {"shards": 16, "families": 500, "watchdog_s": 300},
     "thorough": {"shards": 32, "families": 500, "watchdog_s": 3000},
@@ -49,6 +49,11 @@ def confusable_pairs(rng):
         (("xml", s, "/a/b"), ("xml", s, "/a/b[2]")),
         (("no",), ("gen", s)),
         (("code", s, 2, 5), ("code", s, 2, 6)),
+        # plain origins over a set of positions: the same members in another order / with a repeated member
+        (("posset", s, (0, 2), (3, 5)), ("posset", s, (3, 5), (0, 2))),
+        (("posset", s, (0, 2), (3, 5)), ("posset", s, (0, 2), (0, 2), (3, 5))),
+        (("nsnp",), ("no",)),
+        (("whole", s), ("gen", s)),
     ]
 
 
@@ -120,7 +125,14 @@ def run_shard(ctx):
             ctx.count("serial_families")
         roots = []
         keepalive = []
-        for s, kind in fam:
+        for fi, (s, kind) in enumerate(fam):
+            if case % 4 == 2 and fi == len(fam) // 2:
+                # the registry of sources is emptied between the construction of two operands (the documented way to start a
+                # new index-based dump): origins are what they are whether or not their sources are listed there
+                from pyoak.origin import Source
+
+                Source.clear_registry()
+                ctx.count("source_registry_cleared_between_operands")
             r = build(U, s)
             via = rng.choice(["built", "built", "built", "pickle", "deepcopy"])
             if via != "built":
